@@ -342,8 +342,10 @@ SEM_KINDS = ['none', 'id', 'tag', 'tagdefault', 'failb', 'raise', 'raiseKeyError
              'raiseLookupError']
 
 
-def make_semantics2(kind, rules, params=None):
-    """Semantics object for C06: one method per rule (or only _default for 'tagdefault'), recording every call."""
+def make_semantics2(kind, rules, params=None, shape=None):
+    """Semantics object for C06: one method per rule (or only _default for 'tagdefault'), recording every call.
+    shape: how the OBJECT looks to Python, which must not matter - 'falsy' (defines __len__ -> 0), 'unhashable' (defines __eq__
+    only), 'equal' (compares equal to, and hashes like, every other object of this shape)."""
     if kind == 'none':
         return None, []
     from tatsu.exceptions import FailedSemantics
@@ -396,6 +398,15 @@ def make_semantics2(kind, rules, params=None):
     class Sem:
         pass
 
+    if shape == 'falsy':
+        Sem.__len__ = lambda self: 0
+    elif shape == 'unhashable':
+        Sem.__eq__ = lambda self, other: self is other          # defining __eq__ alone sets __hash__ to None
+    elif shape == 'equal':
+        Sem.__eq__ = lambda self, other: getattr(type(other), '_verif_equal', False)
+        Sem.__hash__ = lambda self: 7
+        Sem._verif_equal = True
+
     if kind == 'tagdefault':
         def _default(self, ast, *a, **kw):
             # _default is not told the rule name; tag with '?' and let the driver compare modulo the tag's name
@@ -442,13 +453,27 @@ def run_sem_case(case):
             if kind.endswith('/memo-off'):
                 k2 = kind.split('/')[0]
                 extra = {'memoization': False}
-            sem, log = make_semantics2(k2, case['rules'], case.get('params'))
+            shape, route = None, None
+            if '/' in kind and not kind.endswith('/memo-off'):
+                k2, shape, *rest = kind.split('/')
+                route = rest[0] if rest else None
+            sem, log = make_semantics2(k2, case['rules'], case.get('params'), shape=shape)
             kw = dict(settings); kw.update(extra)
             if sem is not None:
                 kw['semantics'] = sem
+            if shape == 'equal':
+                # an EQUAL object with other actions was used before (same parser route)
+                other, _ = make_semantics2('id', case['rules'], case.get('params'), shape='equal')
+                try:
+                    parse(text, start=case.get('start', 's'), **dict(kw, semantics=other))
+                except Exception:  # noqa: BLE001
+                    pass
             signal.alarm(case.get('timeout', 30))
             try:
-                o = outcome(lambda: parse(text, start=case.get('start', 's'), **kw))
+                if route == 'api':
+                    o = outcome(lambda: tatsu.parse(case['ebnf'], text, start=case.get('start', 's'), **kw))
+                else:
+                    o = outcome(lambda: parse(text, start=case.get('start', 's'), **kw))
             except _Timeout:
                 o = {'k': 'exc', 'cls': 'Timeout'}
             finally:
